@@ -1,5 +1,6 @@
 import RbModel.Sexp
 import RbModel.Core
+import RbModel.CoreVm
 /-! Line-protocol handlers for the code-generator model (requests `core.*`). -/
 namespace RbModel.Drv.Core
 open RbModel RbModel.Ast RbModel.Src RbModel.Core
@@ -43,6 +44,16 @@ def handle (cmd : String) (args : List Sexp) : Option String :=
           let m := (mc[i]?).map showC |>.getD "-"
           let r := (rc[i]?).map showC |>.getD "-"
           pure s!"(differ {i} {m} {r} {mc.length} {rc.length})"
+  | "core.run", [fuel, prog] => do
+      let fuel ← fuel.nat?
+      let prog ← sprogram? prog
+      let code := compile prog
+      let outS := fun (σ : CoreVm.Vm) => toString (Sexp.ofNats (σ.out.out.map Char.toNat))
+      match CoreVm.run code fuel (CoreVm.Vm.init prog.slots) with
+      | .halted σ => pure s!"(normal {outS σ} ())"
+      | .error c p σ => pure s!"((error {c} {p.row} {p.col}) {outS σ} ())"
+      | .stuck => pure "(stuck () ())"
+      | .outOfFuel => pure "(outOfFuel () ())"
   | _, _ => none
 
 end RbModel.Drv.Core
